@@ -16,6 +16,13 @@ def classify(b, bi, t, depth=1):
     sinks = classify_local(b, t['d'][0], bi)
     if t['d'][0] == 0:
         sinks.add('ret')
+    if 'switch' in sinks and not ({'try', 'ret'} & sinks) and str(b.locals[0]).startswith('std::result::Result<'):
+        # `match r { Ok(x) => .., Err(_) => Err(Error::X) }`: the error arm leaves through an error exit on every path - the error
+        # is converted like map_err + `?` would
+        errs = lib.result_err_targets(b, bi)
+        exits = core.error_exit_blocks(b)
+        if errs and exits and all(b.find_path([tg], b.return_blocks(), removed=set(exits)) is None for tg in errs):
+            sinks.add('ret')
     if depth > 0:
         F = b.facts
         for s_ in list(sinks):
